@@ -2,6 +2,8 @@ package nodeutil
 
 import (
 	"bytes"
+	"errors"
+	"strings"
 	"sync"
 
 	"github.com/freeconf/yang/meta"
@@ -16,8 +18,24 @@ import (
 // reaches - and every package-level variable counts as shared; the engine logs
 // each plain (non-atomic) store to such a location.
 
+// restrictions with several alternatives, unions, references and conditions: everything a value passes through on its way in
+const c20Extra = `
+	identity base-id; identity kid-id { base base-id; }
+	container t {
+		leaf r { type int32 { range "0..5 | 10..20 | 100..max"; } }
+		leaf ln { type string { length "1..2 | 4"; pattern "[a-z]*"; } }
+		leaf-list rl { type uint8 { range "1..3 | 9"; } }
+		leaf un { type union { type uint8 { range "0..9 | 50..60"; } type string { length "3 | 5"; } } }
+		leaf idr { type identityref { base base-id; } }
+		leaf lr { type leafref { path "../r"; } }
+		leaf w { when "r>3"; type string; }
+		leaf d64 { type decimal64 { fraction-digits 1; range "0..1 | 5.5..9.5"; } }
+		leaf bits { type bits { bit b0; bit b1; } }
+	}
+`
+
 func S_c20() any {
-	m, err := parser.LoadModuleFromString(nil, c04Yang)
+	m, err := parser.LoadModuleFromString(nil, c04Yang[:strings.LastIndex(c04Yang, "}")]+c20Extra+"}")
 	if err != nil {
 		panic(err)
 	}
@@ -75,7 +93,45 @@ func H_C20_use_writes_nothing_shared(s any) {
 	b := node.NewBrowser(m, src.node())
 	var err error
 	what := ""
-	switch vpChoose(9) {
+	switch vpChoose(11) {
+	case 9:
+		what = "validated edit"
+		r := vpInt32()
+		vpAssume((r >= 0 && r <= 5) || (r >= 10 && r <= 20) || r >= 100) // any alternative of the range
+		t := src.root.ensureKid(src, "t")
+		t.leaves["r"] = val.Int32(r)
+		t.leaves["ln"] = val.String([]string{"a", "ab", "abcd"}[vpChoose(3)])
+		t.leaves["rl"] = val.UInt8List([]uint8{[]uint8{1, 3, 9}[vpChoose(3)], 2})
+		t.leaves["lr"] = val.Int32(r)
+		t.leaves["w"] = val.String("wv")
+		t.leaves["idr"] = val.IdentRef{Label: "kid-id"}
+		dst := newMemStore()
+		dst.quiet = true
+		err = node.NewBrowser(m, dst.node()).Root().UpsertFrom(src.node())
+	case 10:
+		what = "set values that match a later alternative"
+		var sel *node.Selection
+		sel, err = b.Root().Find("t")
+		if err == nil && sel == nil {
+			src.root.ensureKid(src, "t")
+			sel, err = b.Root().Find("t")
+		}
+		if err == nil && sel != nil {
+			u := vpUint8()
+			vpAssume(u <= 9 || (u >= 50 && u <= 60))
+			switch vpChoose(5) {
+			case 0:
+				err = c20Set(sel, "un", u)
+			case 1:
+				err = c20Set(sel, "un", []string{"abc", "abcde"}[vpChoose(2)])
+			case 2:
+				err = c20Set(sel, "r", 150)
+			case 3:
+				err = c20Set(sel, "d64", []float64{0.5, 6.5, 9.5}[vpChoose(3)])
+			case 4:
+				err = c20Set(sel, "rl", []uint8{9, 1})
+			}
+		}
 	case 0:
 		what = "export"
 		out := newMemStore()
@@ -180,4 +236,15 @@ func H_C20_load_touches_no_global() {
 	_ = m1
 	_ = m2
 	vpCover("reached")
+}
+
+func c20Set(sel *node.Selection, leaf string, v interface{}) error {
+	l, err := sel.Find(leaf)
+	if err != nil {
+		return err
+	}
+	if l == nil {
+		return errors.New("leaf not found")
+	}
+	return l.SetValue(v)
 }
